@@ -177,6 +177,24 @@ Code(lab, params) ==
 
 ParamsOf(lab) == {lab[k] : k \in {q \in 1..Len(lab) : IsParam(lab[q])}}
 
+(* syntactic linearity in the parameters (C04, C20): class of the sub-tree starting at p,
+   "const" (no parameter), "lin" (affine in the parameters) or "non"; returns <<class, next position>> *)
+RECURSIVE LinAt(_, _, _)
+LinAt(sh, lab, p) ==
+  IF sh[p] = 0 THEN <<IF IsParam(lab[p]) THEN "lin" ELSE "const", p + 1>>
+  ELSE IF sh[p] = 1
+       THEN LET c == LinAt(sh, lab, p + 1) IN <<IF c[1] = "const" THEN "const" ELSE "non", c[2]>>
+       ELSE LET l == LinAt(sh, lab, p + 1)
+                r == LinAt(sh, lab, l[2])
+                cls == IF l[1] = "non" \/ r[1] = "non" THEN "non"
+                       ELSE IF l[1] = "const" /\ r[1] = "const" THEN "const"
+                       ELSE IF lab[p] \in {"+", "-"} THEN "lin"
+                       ELSE IF lab[p] = "*" THEN (IF l[1] = "const" \/ r[1] = "const" THEN "lin" ELSE "non")
+                       ELSE IF lab[p] = "/" THEN (IF r[1] = "const" THEN "lin" ELSE "non")
+                       ELSE "non"
+            IN <<cls, r[2]>>
+LinClass(sh, lab) == LinAt(sh, lab, 1)[1]
+
 (* --- invariants (C01) --- *)
 ParamsInOrder ==   \* parameters are a0..a(k-1) in order of first appearance
   Renumber => \A k \in 1..Len(labels) : IsParam(labels[k]) =>
@@ -188,6 +206,6 @@ EmitPosInRange == Complete => EmitPos(shape, labels) \in 0..(TreesOfShape(shape)
 
 EmitTree == Complete =>
    PrintT(ToJson([shape |-> shape, labels |-> labels, pos |-> EmitPos(shape, labels),
-                  infix |-> Infix(shape, labels),
+                  infix |-> Infix(shape, labels), lin |-> LinClass(shape, labels),
                   code |-> Code(labels, ParamsOf(labels))]))
 =============================================================================
